@@ -46,50 +46,88 @@ Theorem C07_propagate_sort_key_only_hints :
 Proof. exact prop_op_equiv. Qed.
 Print Assumptions C07_propagate_sort_key_only_hints.
 
+(* Optimizer.Optimize never fails on a plan of the modelled subset: pass
+   operators are removed before demand is computed, so the "Duplicate op value"
+   panic is unreachable (fixed by 87d257a9e). *)
+Theorem C07_optimize_total :
+  forall s,
+    optimize s =
+    Some (remove_pass (source_paths (merge_filters (opt_parallels (remove_pass (merge_filters s)))))).
+Proof. exact optimize_total. Qed.
+Print Assumptions C07_optimize_total.
+
 (* Optimizer.Optimize end to end (mergeFilters; removePassOps; optimizeParallels;
-   mergeFilters; optimizeSourcePaths; insertDemand; removePassOps), partial:
+   mergeFilters; optimizeSourcePaths; removePassOps; insertDemand), partial:
    for the plans on which nothing is lifted into fork branches and no nested
    entry is rewritten (computable side conditions, true of every fork-free
-   plan).  Missing: liftIntoParPaths, whose soundness is refuted on the real
-   code by the oracle (lifted sort loses -r / -nulls first; order propagated
-   through the fan-in of a fork). *)
+   plan), Optimize succeeds and the optimized plan has the output sequence of
+   the analysed plan.  Missing: liftIntoParPaths (its soundness needs laws of
+   the abstract sort/merge/aggregate operators; it is covered by the
+   correspondence check and the execution oracle). *)
 Theorem C07_optimize_preserves_partial :
   forall V holds app multi comb over_run,
     (forall id f g l, (forall x, f x = g x) -> over_run id f l = over_run id g l) ->
     (forall a b v, holds (EAnd a b) v = holds a v && holds b v) ->
-    forall s s' input,
-      optimize s = Some s' ->
-      forall s2, s2 = remove_pass (merge_filters s) ->
+    forall s input s2,
+      s2 = remove_pass (merge_filters s) ->
       opt_parallels s2 = s2 ->
       source_paths (merge_filters s2) = source_post (merge_filters s2) ->
       scan_clean (merge_filters s2) ->
-      run V holds app multi comb over_run s' input =
-      run V holds app multi comb over_run s input.
+      exists s', optimize s = Some s' /\
+                 run V holds app multi comb over_run s' input =
+                 run V holds app multi comb over_run s input.
 Proof. exact optimize_preserves_partial. Qed.
 Print Assumptions C07_optimize_preserves_partial.
 
-(* The sort-key analysis that licenses the hints is unsound as written:
-   analyzeCuts judges `cut c` to keep the order on k (k is gone), and a
-   following `rename k:=c` to keep it too (k now carries c's values). *)
-Theorem C07_analyze_cut_keeps_key_refuted :
-  exists args d key r,
-    analyze (OCut args) [(d, [key])] = [(d, [key])] /\
-    lookup key (cut_sem args r) <> lookup key r.
-Proof. exact analyze_cut_keeps_key_refuted. Qed.
-Print Assumptions C07_analyze_cut_keeps_key_refuted.
+(* The sort-key analysis that licenses the hints (analyzeSortKeys), against
+   flat records.  cut (fixed by d16c8d29d): if the order on k is reported to
+   continue as the order on k', then k' of the output is k of the input. *)
+Theorem C07_analyze_cut_keeps_key :
+  forall args d k k' r,
+    Forall flat_arg args -> NoDup (map lhs_name args) ->
+    analyze (OCut args) [(d, [k])] = [(d, [k'])] ->
+    lookup k' (cut_sem args r) = lookup k r.
+Proof. exact analyze_cut_keeps_key. Qed.
+Print Assumptions C07_analyze_cut_keeps_key.
 
-Theorem C07_analyze_cut_rename_refuted :
-  let cut := [(EThis [2%N], EThis [2%N])] in
-  let ren := [(EThis [1%N], EThis [2%N])] in
-  analyze (ORename ren) (analyze (OCut cut) [(false, [1%N])]) = [(false, [1%N])] /\
-  forall r, lookup 1%N (cut_sem cut r) = None.
-Proof. exact analyze_cut_rename_refuted. Qed.
-Print Assumptions C07_analyze_cut_rename_refuted.
-
-(* ... while `drop` is analysed correctly for top-level fields. *)
+(* drop: a kept key keeps its value. *)
 Theorem C07_analyze_drop_keeps_key :
   forall args d k r,
     analyze (ODrop args) [(d, [k])] = [(d, [k])] ->
     lookup k (drop_sem args r) = lookup k r.
 Proof. exact analyze_drop_keeps_key. Qed.
 Print Assumptions C07_analyze_drop_keeps_key.
+
+(* The former counterexamples (`cut c`; `cut c | rename k:=c`; put / drop /
+   rename of a record containing the key) are now analysed as "order unknown"
+   (fixed by d16c8d29d and 5939a8776). *)
+Theorem C07_analyze_former_counterexamples :
+  let k := [1%N] in let c := [2%N] in let n := [4%N] in let nx := [4%N; 5%N] in
+  analyze (OCut [(EThis c, EThis c)]) [(false, k)] = [] /\
+  analyze (ORename [(EThis k, EThis c)]) [(false, k)] = [] /\
+  analyze (OPut [(EThis n, EOther 0)]) [(false, nx)] = [] /\
+  analyze (ODrop [EThis n]) [(false, nx)] = [] /\
+  analyze (ORename [(EThis [6%N], EThis n)]) [(false, nx)] = [].
+Proof. exact analyze_former_counterexamples. Qed.
+Print Assumptions C07_analyze_former_counterexamples.
+
+(* A sort lifted into fork branches is replaced by a merge only if the merge has
+   the sort's direction and null placement (fixed by 7e8198198). *)
+Theorem C07_lift_sort_merge_agrees :
+  forall paths k0 d0 nf rev after paths' e d after',
+    lift (OFork paths :: OSort [(k0, d0)] nf rev :: after) = OFork paths' :: OMerge e d :: after' ->
+    e = k0 /\ d = (if rev then negb d0 else d0) /\
+    sort_puts_nulls_first nf d = key_order_nulls_first d /\
+    paths' = append_paths paths (OSort [(k0, d0)] nf rev).
+Proof. exact lift_sort_merge_agrees. Qed.
+Print Assumptions C07_lift_sort_merge_agrees.
+
+(* Still false (open known finding F-C07-2): sortKeysOfSort describes
+   `sort -r k` as the sort key k:desc although the sort puts nulls last and
+   k:desc means nulls first. *)
+Theorem C07_sort_key_null_placement_refuted :
+  exists args nf rev d p,
+    sort_keys_of_sort args rev = [(d, p)] /\
+    sort_puts_nulls_first nf d <> key_order_nulls_first d.
+Proof. exact sort_key_null_placement_refuted. Qed.
+Print Assumptions C07_sort_key_null_placement_refuted.
